@@ -936,6 +936,28 @@ def smc_estimate_rule(ctx, rule="ALG-smc"):
             ck.fail("sum runs over the particle axis", f"axis={short(axis, ev)}")
     if seen == 0:
         ck.fail("weighted sum over particles", "no summation found")
+    # rank of the per-particle values: the column spelling w[:, None] * values broadcasts the weights along the particle axis only for stacked
+    # values of rank 2; decided in the finite situations values.ndim = 2, 3 (the cases' guards are evaluated, whatever they are written with)
+    from ..absint import Model, Unknown
+    w_col = ("idx", wn, ("tuple", (("slice", NONE, NONE, NONE), NONE)))
+    for nd in (2, 3):
+        m = Model(evaluator=ev)
+        m.bind(("attr", V, "ndim"), nd)
+        m.funcs["jax.numpy.ndim"] = lambda x, nd=nd: nd
+        for asg, leaf in all_cases(s.ret):
+            try:
+                live = all(m.truth(c) == bool(v) for c, v in asg.items())
+            except Unknown as e:
+                raise AnalysisError(f"smc.ParticleCollection.estimate: unrecognised condition on the values' rank ({e})")
+            if not live or not is_call(leaf, name="jax.numpy.sum") or len(leaf[2]) != 1 or ev.kwget(leaf[3], "axis") != C(0):
+                continue
+            prod = lin.norm(leaf[2][0])
+            if nd == 3 and prod in (lin.norm(("binop", "*", w_col, V)), lin.norm(("binop", "*", V, w_col))):
+                ck.fail("array values of every rank weighted along the particle axis",
+                        "for per-particle values of rank >= 2 (stacked rank >= 3) the weights are broadcast as w[:, None], i.e. against the values' second-to-last axis: a shape "
+                        "error unless that axis has the particle count's length, in which case the weights land on the wrong axis and the estimate is silently wrong; "
+                        "input: N = 3 particles, fn = lambda ch: jnp.outer(jnp.arange(1., 4.), jnp.array([1., ch['x']])) "
+                        "(findings_repro/repro_f35_estimate_rank3.py; w.reshape((-1,) + (1,) * (values.ndim - 1)) is the rank-independent form)")
     ck.done()
 
 
